@@ -316,6 +316,46 @@ fn flip_node(p: &mut ExistenceProof, rng: &mut StdRng) {
     target[k] ^= 1 << rng.gen_range(0..8);
 }
 
+/// Operations off the ProofSpec that cut the committed leaf bytes `prefix | len(key) | key | 0x20 | sha256(value)`
+/// differently: same root, same key, a value that was never stored.
+fn reslice(p: &mut ExistenceProof, variant: &str) {
+    let old = p.leaf.clone().unwrap_or_default();
+    let mut prefix = old.prefix.clone();
+    varint(p.key.len() as u64, &mut prefix);
+    let vh = sha(&p.value);
+    match variant {
+        // leaf without value pre-hash and without length prefixes
+        "VS1" => {
+            p.leaf = Some(LeafOp {
+                hash: HashOp::Sha256.into(),
+                prehash_key: HashOp::NoHash.into(),
+                prehash_value: HashOp::NoHash.into(),
+                length: LengthOp::NoPrefix.into(),
+                prefix,
+            });
+            p.value = [vec![0x20], vh].concat();
+        }
+        // leaf that does not hash at all, the rest of the committed bytes spliced in by an extra inner operation
+        _ => {
+            p.leaf = Some(LeafOp {
+                hash: HashOp::NoHash.into(),
+                prehash_key: HashOp::NoHash.into(),
+                prehash_value: HashOp::NoHash.into(),
+                length: LengthOp::NoPrefix.into(),
+                prefix,
+            });
+            p.value = vec![0x20];
+            p.path.insert(0, InnerOp { hash: HashOp::Sha256.into(), prefix: vec![], suffix: vh });
+        }
+    }
+}
+
+fn resliced_value(w: &Worlds, variant: &str) -> Vec<u8> {
+    let mut p = w.pa.clone();
+    reslice(&mut p, variant);
+    p.value
+}
+
 fn concrete_op(w: &Worlds, rc: &Value, rng: &mut StdRng) -> ProofOp {
     let mut p = match rc["base"].as_str().unwrap() {
         "PA" => w.pa.clone(),
@@ -346,6 +386,7 @@ fn concrete_op(w: &Worlds, rc: &Value, rng: &mut StdRng) -> ProofOp {
         "flip" => flip_node(&mut p, rng),
         "setvalue" => p.value = sym_val(rc["arg"].as_str().unwrap()),
         "setkey" => p.key = sym_key(rc["arg"].as_str().unwrap()),
+        "reslice" => reslice(&mut p, rc["arg"].as_str().unwrap()),
         t => tool_error(&format!("tamper {t}")),
     }
     ProofOp {
@@ -396,6 +437,7 @@ pub fn replay(args: &Args) {
         .unwrap_or_else(|e| tool_error(&format!("client: {e}")));
     let mut honest_accepted = 0u64;
     let mut query_ok = 0u64;
+    let mut mech_honest = 0u64;
     // h_common::Summary keeps a bounded list of violations: report at most 8 per class in detail so that a
     // frequent class (the recorded empty-value finding) cannot crowd out another one; all are counted
     let mut by_class: std::collections::BTreeMap<String, u64> = std::collections::BTreeMap::new();
@@ -408,11 +450,21 @@ pub fn replay(args: &Args) {
                 "VA" => w.va.clone(),
                 "VB" => w.vb.clone(),
                 "VF" => w.vf.clone(),
+                v @ ("VS1" | "VS2") => resliced_value(&w, v),
                 _ => vec![],
             };
             let root = if case["root"] == "AppHash" { &w.app_hash } else { &w.app_hash2 };
             let height = rng.gen_range(2..1000u64);
             let header = header_with(root, height);
+            // the anchored mechanism itself (hook `celestia_grpc::verif`, cfg(eigerco_lumina_verif))
+            let mech = catch(|| {
+                celestia_grpc::verif::verif_verify_membership(
+                    ProofOps { ops: ops.clone() },
+                    root,
+                    &[w.key_a.as_slice(), b"bank"],
+                    &value,
+                )
+            });
             *served.resp.lock().unwrap() = AbciQueryResponse {
                 code: 0,
                 key: if case["rkey"] == "KB" { w.key_b.clone() } else { w.key_a.clone() },
@@ -469,6 +521,30 @@ pub fn replay(args: &Args) {
             } else if (verdict.starts_with("ok")) != reported {
                 sum.drift(PROP, json!({"why": format!("model verdict {verdict}, observed {detail}"), "case": shape}));
             }
+            // ProofChain::verify_membership: Ok only for a chain that links key and value to the app hash
+            let mech_ok = matches!(mech, Ok(Ok(())));
+            let mverdict = case["mverdict"].as_str().unwrap_or("");
+            if matches!(mech, Err(_)) {
+                sum.violation(PROP, json!({"class": {"kind": "panic", "level": "verify_membership"}, "why": format!("verify_membership panicked: {mech:?}"), "case": case, "seed": seed, "index": i}));
+            } else if demand == 0 && mech_ok {
+                let mclass = json!({"kind": "forged-chain-verified", "level": "verify_membership", "value": case["value"], "ops": case["ops"].as_array().unwrap().len()});
+                let n = by_class.entry(mclass.to_string()).or_insert(0);
+                *n += 1;
+                if *n <= 8 {
+                    sum.violation(PROP, json!({
+                        "class": mclass,
+                        "why": format!("ProofChain::verify_membership returned Ok although the chain does not link the key and value to the app hash: {shape}"),
+                        "case": case, "seed": seed, "index": i, "rep": rep,
+                    }));
+                }
+            } else if demand == 1 && !mech_ok {
+                sum.drift(PROP, json!({"why": format!("honest chain rejected by verify_membership: {mech:?}"), "case": case}));
+            } else if !mverdict.is_empty() && (mverdict == "ok") != mech_ok {
+                sum.drift(PROP, json!({"why": format!("model verdict {mverdict} for verify_membership, observed {mech:?}"), "case": shape}));
+            }
+            if demand == 1 && mech_ok {
+                mech_honest += 1;
+            }
             if demand == 1 && reported {
                 honest_accepted += 1;
                 // the reported amount is the returned value
@@ -482,6 +558,7 @@ pub fn replay(args: &Args) {
     }
     sum.set("violations_by_class", json!(by_class));
     sum.set("honest_accepted", json!(honest_accepted));
+    sum.set("honest_accepted_by_verify_membership", json!(mech_honest));
     sum.set("queries_for_the_right_key", json!(query_ok));
     sum.write(args.opt("summary").unwrap_or_else(|| tool_error("--summary")));
 }
